@@ -10,6 +10,7 @@ import (
 	"errors"
 	"fmt"
 	"net"
+	"sync"
 	"time"
 
 	"github.com/pion/logging"
@@ -39,6 +40,10 @@ type Server struct {
 	listenerConfigs    []ListenerConfig
 	allocationManagers []*allocation.Manager
 	inboundMTU         int
+
+	// Connections accepted from the listeners, closed by Close.
+	connsLock sync.Mutex
+	conns     map[net.Conn]struct{}
 }
 
 // NewServer creates the Pion TURN server.
@@ -76,6 +81,7 @@ func NewServer(config ServerConfig) (*Server, error) { //nolint:gocognit,cyclop
 		nonceHash:           nonceHash,
 		inboundMTU:          mtu,
 		eventHandler:        config.EventHandler,
+		conns:               map[net.Conn]struct{}{},
 	}
 
 	if server.channelBindTimeout == 0 {
@@ -149,6 +155,14 @@ func (s *Server) Close() error {
 		}
 	}
 
+	// The listeners are closed, so no new connection can show up: close the accepted
+	// ones, which ends their read loops and releases their allocations.
+	s.connsLock.Lock()
+	for conn := range s.conns {
+		_ = conn.Close()
+	}
+	s.connsLock.Unlock()
+
 	if len(errors) == 0 {
 		return nil
 	}
@@ -170,7 +184,17 @@ func (s *Server) readListener(l net.Listener, am *allocation.Manager) {
 			return
 		}
 
+		s.connsLock.Lock()
+		s.conns[conn] = struct{}{}
+		s.connsLock.Unlock()
+
 		go func() {
+			defer func() {
+				s.connsLock.Lock()
+				delete(s.conns, conn)
+				s.connsLock.Unlock()
+			}()
+
 			var tlsConnectionState *tls.ConnectionState
 
 			// Extract tls connection state if possible
